@@ -118,7 +118,10 @@ DeadState ==
    \* user closures (C14): validity policy none / approving / rejecting; the others installed or not
    vpol |-> "none", ppol |-> FALSE, epol |-> FALSE, upol |-> FALSE, mpol |-> FALSE,
    \* log levels: a bit-set over 16 levels (bit numbers 1..16)
-   lvl |-> {}]
+   lvl |-> {},
+   \* auxiliary map: "none" (never set), "empty" (fresh map), "given" (the caller's map, by reference);
+   \* logger: "devnull" (default / off), "stdout", "stderr", "custom"
+   aux |-> "none", logger |-> "devnull"]
 
 NewState(kind, cap) ==
   [DeadState EXCEPT !.live = TRUE, !.kind = kind, !.cap = cap]
@@ -268,6 +271,15 @@ StepLive(s, c) ==
          [s |-> [s EXCEPT !.enc = IF c.pairs = <<>> THEN <<>> ELSE EncAddAll(s.enc, c.pairs)],
           ret |-> <<>>]
     [] c.op = "Free" -> [s |-> DeadState, ret |-> <<"nil">>]
+    [] c.op = "SetAuxiliary" ->
+         \* no argument or nil => a fresh empty map; otherwise the given map itself
+         [s |-> [s EXCEPT !.aux = IF c.form = "map" THEN "given" ELSE "empty"], ret |-> <<>>]
+    [] c.op = "SetLogger" ->
+         \* "stdout" / 1, "stderr" / 2, a *log.Logger; "none" / "off" / "null" / "discard" / 0 / nil / anything else => discard
+         [s |-> [s EXCEPT !.logger = CASE c.arg \in {"stdout", "STDOUT", "int1"} -> "stdout"
+                                        [] c.arg \in {"stderr", "StdErr", "int2"} -> "stderr"
+                                        [] c.arg = "custom" -> "custom"
+                                        [] OTHER -> "devnull"], ret |-> <<>>]
     [] c.op = "SetLogLevel"   -> [s |-> [s EXCEPT !.lvl = LvShift(s.lvl, c.args)], ret |-> <<>>]
     [] c.op = "UnsetLogLevel" -> [s |-> [s EXCEPT !.lvl = LvUnshift(s.lvl, c.args)], ret |-> <<>>]
     [] c.op = "SetValidityPolicy" -> [s |-> [s EXCEPT !.vpol = c.mode], ret |-> <<>>]
@@ -349,7 +361,8 @@ Obs(s) ==
      padded |-> "true", cannest |-> "false", nesting |-> "false", err |-> "none",
      canmtx |-> "false", id |-> "unspecified", cat |-> "", delim |-> "", sym |-> "",
      enc |-> <<>>, isenc |-> "false", elems |-> <<>>, integ |-> "ok", locked |-> "false",
-     valid |-> "err", strsrc |-> "empty", eqsrc |-> "none", umsrc |-> "none", loglevels |-> ""]
+     valid |-> "err", strsrc |-> "empty", eqsrc |-> "none", umsrc |-> "none", loglevels |-> "",
+     aux |-> "none", logger |-> "none"]
   ELSE
     [init |-> "true", len |-> L, empty |-> B2S(L = 0),
      cap |-> IF s.cap > 0 THEN s.cap ELSE -1,
@@ -376,6 +389,6 @@ Obs(s) ==
                      THEN "empty" ELSE "builtin",
      eqsrc |-> IF s.epol THEN "closure" ELSE "builtin",
      umsrc |-> IF s.upol THEN "closure" ELSE "builtin",
-     loglevels |-> LvString(s.lvl)]
+     loglevels |-> LvString(s.lvl), aux |-> s.aux, logger |-> s.logger]
 
 =============================================================================
